@@ -211,6 +211,10 @@ impl WalRecord {
                 out.extend_from_slice(&stats_root.to_le_bytes());
             }
             WalRecord::SetNodeProperty { node, key, value } => {
+                if value.is_nested_too_deeply() {
+                    // decode_body could not read the record back on replay
+                    return Err(Error::WalProtocol("property value nested too deeply"));
+                }
                 out.extend_from_slice(&node.to_le_bytes());
                 let key_bytes = key.as_bytes();
                 let key_len = u32::try_from(key_bytes.len())
@@ -227,6 +231,9 @@ impl WalRecord {
                 key,
                 value,
             } => {
+                if value.is_nested_too_deeply() {
+                    return Err(Error::WalProtocol("property value nested too deeply"));
+                }
                 out.extend_from_slice(&src.to_le_bytes());
                 out.extend_from_slice(&rel.to_le_bytes());
                 out.extend_from_slice(&dst.to_le_bytes());
